@@ -14,6 +14,13 @@
 // it from the state it claims the recycled object to be in (c_start), whatever the earlier boots
 // were; the description of the case lists the earlier boots.
 //
+// Shared objects: a converter object (*dataconverters.Hasher, dataconverters.HasherFactory) or a
+// data-source object may be held by several measurements of a boot and by measurements of later boots
+// of the session (platform.convs; flows of kind "shared-objects" do it systematically, the other
+// kinds as often as the platform's trait says).  In the case the converter of a data object is the
+// NUMBER of the object in the case's pool; Coq runs the flow at the level of Model/BootSimObjs.v
+// (objects with their running state, digests as slices of arrays, logs read after the flow).
+//
 // The oracle (independent of the model, written from the property text):
 //
 //	(a) which flows the event-log clause speaks about is decided from the ITEMS alone (the ledger:
@@ -36,10 +43,18 @@
 //	(c) every digest extended/logged for a measurement == hash(ConvertedBytes),
 //	    ConvertedBytes == converter(concatenation in reference order of the
 //	    bytes read INDEPENDENTLY from the artifacts), extend and log-add of one
-//	    measurement carry the same digest; TPMInit / InitTPM / LogInit /
+//	    measurement carry the same digest -- judged on the logs as they read AFTER the whole flow and
+//	    after every observer ran, against hashes the harness computes itself (never against
+//	    ConvertedBytes() of the very objects), so a digest that a later conversion by a shared
+//	    converter object overwrote is seen; TPMInit / InitTPM / LogInit /
 //	    TPMEventLogAdd issue exactly the commands they stand for; a measurement
 //	    whose data cannot be read or whose extend is refused leaves no commands
 //	    and no MeasuredData entry; every TPM entry of MeasuredData was made by an action of this boot.
+//
+//	(d) looking does not change the records: the command log and the event log, written down when the
+//	    boot ended, read the same after ConvertedBytes of every MeasuredData entry, the replays and
+//	    the re-executions; (b') the command lists kept from the earlier boots of a session
+//	    (CommandLog.Commands()) still carry the digests they carried when their boot ended.
 //
 // Steps whose actions cannot be matched with their items (e.g. a LogInit that
 // logs one bank only) are reported as oracle failures with the flow as input.
@@ -178,7 +193,19 @@ type refSpec struct {
 
 type dataSpec struct {
 	refs []refSpec
-	conv uint16 // 0: nil converter, 4/11: Hasher of that algorithm
+	conv uint16   // 0: nil converter, 4/11: Hasher of that algorithm
+	obj  *convObj // the converter OBJECT (nil iff conv == 0): several measurements may hold the same one
+}
+
+// convObj is one converter object (a *dataconverters.Hasher, which carries a mutex and is meant to be
+// shared, or a dataconverters.HasherFactory value).  The objects of a platform live as long as the
+// platform: measurements of one boot, and of later boots of a session, may hold the same object.
+type convObj struct {
+	id      int
+	alg     uint16
+	factory bool
+	real    types.DataConverter
+	uses    int // how many data objects were given this converter so far
 }
 
 type srcSpec struct {
@@ -286,10 +313,11 @@ func refsLit(rs []refSpec) string {
 	return gal.List(s)
 }
 
+// dataLit: the converter is the NUMBER of the converter object in the case's pool (Model/BootSimObjs.v)
 func dataLit(d dataSpec) string {
 	c := "None"
 	if d.conv != 0 {
-		c = fmt.Sprintf("(Some %d)", d.conv)
+		c = fmt.Sprintf("(Some %d)", d.obj.id)
 	}
 	return fmt.Sprintf("(mkData %s %s)", refsLit(d.refs), c)
 }
@@ -327,6 +355,54 @@ func realConv(c uint16, alt bool) types.DataConverter {
 		return dataconverters.NewHasher(sha256.New())
 	}
 	return nil
+}
+
+// newConv makes a converter object of the platform's pool
+func (p *platform) newConv(alg uint16, factory bool, real types.DataConverter) *convObj {
+	if real == nil {
+		real = realConv(alg, factory)
+	}
+	o := &convObj{id: len(p.convs), alg: alg, factory: factory, real: real}
+	p.convs = append(p.convs, o)
+	return o
+}
+
+// conv gives a data object its converter: an object of the pool that other measurements (of this boot
+// or of an earlier boot of the session) hold as well, or a new one.  How often objects are shared is
+// a trait of the platform (share: per cent).
+func (p *platform) conv(alg uint16) *convObj {
+	if alg == 0 {
+		return nil
+	}
+	var cands []*convObj
+	for _, o := range p.convs {
+		if o.alg == alg {
+			cands = append(cands, o)
+		}
+	}
+	var o *convObj
+	if len(cands) > 0 && ctx.Rng.Intn(100) < p.share {
+		o = cands[ctx.Rng.Intn(len(cands))]
+		if ctx.Rng.Intn(3) > 0 { // mostly the object used last
+			o = cands[len(cands)-1]
+		}
+	} else {
+		o = p.newConv(alg, ctx.Rng.Intn(3) == 0, nil)
+	}
+	o.uses++
+	return o
+}
+
+// staticData: a *datasources.StaticData over the references of the spec, with the spec's converter object
+func staticData(d dataSpec) types.DataSource {
+	td := &types.Data{}
+	if d.obj != nil {
+		td.Converter = d.obj.real
+	}
+	for _, r := range d.refs {
+		td.References = append(td.References, realRef(r))
+	}
+	return (*datasources.StaticData)(td)
 }
 
 // ---------------------------------------------------------------- items
@@ -394,7 +470,15 @@ func dataDescr(d dataSpec) interface{} {
 		}
 		refs = append(refs, m)
 	}
-	return map[string]interface{}{"refs": refs, "hasher": d.conv}
+	m := map[string]interface{}{"refs": refs, "hasher": d.conv}
+	if d.obj != nil {
+		kind := "*dataconverters.Hasher"
+		if d.obj.factory {
+			kind = "dataconverters.HasherFactory"
+		}
+		m["converter_object"] = fmt.Sprintf("#%d (%s; held by %d data objects of this platform)", d.obj.id, kind, d.obj.uses)
+	}
+	return m
 }
 
 func (it *itemSpec) descr() interface{} {
@@ -438,6 +522,24 @@ type platform struct {
 	// DoNotUse_ResetNoInit leaves the TPM without its list of supported algorithms ("does not set
 	// the state to a correct one"): LogInit then has no bank to write a startup entry for
 	noAlgos bool
+	// the converter objects made so far (they outlive the boots) and how often (per cent) a new data
+	// object gets one of them instead of a converter of its own
+	convs []*convObj
+	share int
+	// converter objects by identity (built-in flows: objects the implementation made)
+	convByPtr map[*dataconverters.Hasher]*convObj
+	// the command lists (tpm.CommandLog.Commands()) kept from the earlier boots of the session, with a
+	// deep copy of what they said when their boot ended
+	kept []keptCmds
+	// toDataSpec: do not enter the converter into the pool (PCR0_DATA: the step makes a Hasher of its
+	// own for every bank, which the model knows)
+	noPool bool
+}
+
+type keptCmds struct {
+	boot int
+	cmds tpm.Commands
+	lits []string
 }
 
 const (
@@ -561,8 +663,24 @@ func (p *platform) toDataSpec(d *types.Data) (dataSpec, bool) {
 	case nil:
 	case *dataconverters.Hasher:
 		out.conv = algOfSize(c.Hash.Size())
+		if !p.noPool {
+			o := p.convByPtr[c]
+			if o == nil {
+				o = p.newConv(out.conv, false, c)
+				if p.convByPtr == nil {
+					p.convByPtr = map[*dataconverters.Hasher]*convObj{}
+				}
+				p.convByPtr[c] = o
+			}
+			o.uses++
+			out.obj = o
+		}
 	case dataconverters.HasherFactory:
 		out.conv = algOfSize(c.NewHasherFunc().Size())
+		if !p.noPool {
+			out.obj = p.newConv(out.conv, true, c)
+			out.obj.uses++
+		}
 	default:
 		return out, false
 	}
@@ -691,6 +809,7 @@ func (p *platform) genData(allowBad bool) dataSpec {
 		d.refs = append(d.refs, p.genRef(allowBad))
 	}
 	d.conv = pick[uint16](0, 0, 0, algSHA1, algSHA256)
+	d.obj = p.conv(d.conv)
 	return d
 }
 
@@ -740,7 +859,7 @@ func (p *platform) genSource(allowBad bool) (srcSpec, types.DataSource) {
 		imageOnly := ctx.Rng.Intn(4) > 0
 		part := func() dataSpec {
 			d := p.genData(allowBad)
-			d.conv = 0
+			d.conv, d.obj = 0, nil
 			if imageOnly {
 				for i := range d.refs {
 					for d.refs[i].art.kind != 1 {
@@ -753,14 +872,9 @@ func (p *platform) genSource(allowBad bool) (srcSpec, types.DataSource) {
 		d1, d2 := part(), part()
 		if ctx.Rng.Intn(10) == 0 { // a part with a converter: refused
 			d2.conv = pick[uint16](algSHA1, algSHA256)
+			d2.obj = p.conv(d2.conv)
 		}
-		mk := func(d dataSpec) types.DataSource {
-			td := &types.Data{Converter: realConv(d.conv, false)}
-			for _, r := range d.refs {
-				td.References = append(td.References, realRef(r))
-			}
-			return (*datasources.StaticData)(td)
-		}
+		mk := staticData
 		all := append(append([]refSpec{}, d1.refs...), d2.refs...)
 		ds := datasources.Concat{mk(d1), mk(d2)}
 		if d2.conv != 0 {
@@ -774,11 +888,7 @@ func (p *platform) genSource(allowBad bool) (srcSpec, types.DataSource) {
 		return srcSpec{data: dataSpec{refs: all}}, ds
 	}
 	d := p.genData(allowBad)
-	td := &types.Data{Converter: realConv(d.conv, ctx.Rng.Intn(2) == 0)}
-	for _, r := range d.refs {
-		td.References = append(td.References, realRef(r))
-	}
-	return srcSpec{data: d}, (*datasources.StaticData)(td)
+	return srcSpec{data: d}, staticData(d)
 }
 
 func genType(allowNoAction bool) uint32 {
@@ -836,14 +946,12 @@ func (p *platform) genPair() []*itemSpec {
 	alg := pick[uint16](algSHA1, algSHA256)
 	pi := pick[uint8](0, 0, 1)
 	d := p.genData(false)
-	d.conv = alg
-	td := &types.Data{Converter: realConv(alg, ctx.Rng.Intn(2) == 0)}
-	for _, r := range d.refs {
-		td.References = append(td.References, realRef(r))
+	if d.conv != alg {
+		d.conv, d.obj = alg, p.conv(alg)
 	}
 	raw, _ := rawOf(d)
 	return []*itemSpec{
-		{kind: "extend", p: pi, alg: alg, src: srcSpec{data: d}, ds: (*datasources.StaticData)(td)},
+		{kind: "extend", p: pi, alg: alg, src: srcSpec{data: d}, ds: staticData(d)},
 		{kind: "logadd", p: pi, alg: alg, digest: hashOf(alg, raw.b), ty: genType(false), evd: genEvd()},
 	}
 }
@@ -873,6 +981,62 @@ func (p *platform) genWF() []*itemSpec {
 		default:
 			items = append(items, p.genEvent(false))
 		}
+	}
+	return items
+}
+
+// genShared: a well-formed flow whose measurements hold the SAME objects: one converter object per
+// bank (a *dataconverters.Hasher carries a mutex: it is meant to be shared) serves several
+// TPM2_PCR_Extend-style measurements of different data and the data of TPM2_PCR_Event-style
+// measurements; a data-source object (and with it its types.Data, references and converter) is measured
+// again later, into the same or the other PCR, by the same or the other kind of action.  What a
+// measurement recorded must not depend on what the objects it holds were used for afterwards.
+func (p *platform) genShared() []*itemSpec {
+	items, _ := genStartup(genLocality())
+	own := map[uint16]*convObj{}
+	for _, a := range algs {
+		if ctx.Rng.Intn(4) > 0 || len(p.convs) == 0 {
+			own[a] = p.newConv(a, ctx.Rng.Intn(6) == 0, nil)
+		} else { // an object that earlier measurements of the platform hold
+			own[a] = p.conv(a)
+		}
+	}
+	type src struct {
+		spec srcSpec
+		ds   types.DataSource
+	}
+	var srcs []src
+	n := pick(2, 2, 3, 3, 4, 5, 6)
+	for i := 0; i < n; i++ {
+		pi := pick[uint8](0, 0, 1)
+		var sp srcSpec
+		var ds types.DataSource
+		if len(srcs) > 0 && ctx.Rng.Intn(4) == 0 { // the data-source object of an earlier measurement
+			x := srcs[ctx.Rng.Intn(len(srcs))]
+			sp, ds = x.spec, x.ds
+		} else {
+			d := p.genData(false)
+			if ctx.Rng.Intn(4) > 0 {
+				d.conv = pick(algs...)
+			}
+			if d.conv != 0 {
+				d.obj = own[d.conv]
+				d.obj.uses++
+			}
+			sp, ds = srcSpec{data: d}, staticData(d)
+			srcs = append(srcs, src{sp, ds})
+		}
+		if sp.data.conv != 0 && ctx.Rng.Intn(4) > 0 {
+			alg := sp.data.conv
+			raw, _ := rawOf(sp.data)
+			items = append(items,
+				&itemSpec{kind: "extend", p: pi, alg: alg, src: sp, ds: ds},
+				&itemSpec{kind: "logadd", p: pi, alg: alg, digest: hashOf(alg, raw.b), ty: genType(false), evd: genEvd()})
+			continue
+		}
+		it := &itemSpec{kind: "event", p: pi, ty: genType(false), evd: genEvd(), src: sp, ds: ds}
+		it.viaStep = it.evd == nil && ctx.Rng.Intn(2) == 0
+		items = append(items, it)
 	}
 	return items
 }
@@ -954,11 +1118,8 @@ func (p *platform) genGeneral() []*itemSpec {
 			it.src, it.ds = p.genSource(true)
 			if !it.src.err && ctx.Rng.Intn(2) == 0 { // TPM2_PCR_Extend of a digest computed by the caller
 				it.src.data.conv = pick[uint16](algSHA1, algSHA256)
-				td := &types.Data{Converter: realConv(it.src.data.conv, false)}
-				for _, r := range it.src.data.refs {
-					td.References = append(td.References, realRef(r))
-				}
-				it.ds = (*datasources.StaticData)(td)
+				it.src.data.obj = p.conv(it.src.data.conv)
+				it.ds = staticData(it.src.data)
 			}
 			items = append(items, it)
 		case 6, 7: // bare TPMEventLogAdd
@@ -1161,7 +1322,9 @@ func (p *platform) fillPCR0(it *itemSpec) bool {
 		if !ok {
 			return false
 		}
+		p.noPool = true
 		spec, ok := p.toDataSpec((*types.Data)(sd))
+		p.noPool = false
 		if !ok || spec.conv != algs[bank] {
 			return false
 		}
@@ -1621,6 +1784,16 @@ func judge(r *runResult) {
 		}
 	}
 
+	// failures of the digest clause are reported ahead of their consequences (a wrong recorded digest
+	// also breaks the fold, the re-executions and the replays)
+	var digestFails []fail
+	expectDigest := func(ok bool, what, site string) {
+		checks++
+		if !ok {
+			digestFails = append(digestFails, fail{"", what, site})
+		}
+	}
+
 	// --- what each item denotes (independent reading) and the table entries the model will need
 	type meas struct {
 		readable  bool
@@ -1671,16 +1844,76 @@ func judge(r *runResult) {
 		}
 	}
 
-	// --- observations
-	cmds := t.CommandLog.Commands()
-	var cmdLits []string
-	for _, c := range cmds {
-		cmdLits = append(cmdLits, cmdLit(c))
+	// coverage: flows in which ONE converter object converts different data for several measurements
+	{
+		inputs := map[*convObj]map[string]bool{}
+		note := func(d dataSpec, m *meas) {
+			if d.obj == nil || m == nil || !m.readable {
+				return
+			}
+			if inputs[d.obj] == nil {
+				inputs[d.obj] = map[string]bool{}
+			}
+			inputs[d.obj][string(m.raw.b)] = true
+		}
+		for _, it := range items {
+			if (it.kind == "event" || it.kind == "extend") && !it.src.err {
+				note(it.src.data, measOf[it])
+			}
+		}
+		shared, carried := false, false
+		for o, in := range inputs {
+			if len(in) >= 2 {
+				shared = true
+			}
+			if o.uses > len(in) {
+				carried = true
+			}
+		}
+		if shared {
+			ctx.Count("flows in which one converter object converts different data of several measurements")
+		}
+		if carried && len(r.earlier) > 0 {
+			ctx.Count("boots holding a converter object that an earlier boot of the session (or another measurement) holds")
+		}
 	}
-	var evLits []string
-	for i := range t.EventLog {
-		e := &t.EventLog[i]
-		evLits = append(evLits, fmt.Sprintf("(EV %d %d %s %d %s)", e.PCRIndex, e.HashAlgo, bl(e.Digest), e.Type, optBytes(e.Data)))
+
+	// --- observations.  The command log and the event log are written down (as text: a deep copy)
+	// before anything else is asked of the objects of the flow: no converter, data source or TPM
+	// routine has been called since the boot ended.
+	cmds := t.CommandLog.Commands()
+	cmdLitsOf := func(cs tpm.Commands) []string {
+		var out []string
+		for _, c := range cs {
+			out = append(out, cmdLit(c))
+		}
+		return out
+	}
+	evLitsOf := func(log tpm.EventLog) []string {
+		var out []string
+		for i := range log {
+			e := &log[i]
+			out = append(out, fmt.Sprintf("(EV %d %d %s %d %s)", e.PCRIndex, e.HashAlgo, bl(e.Digest), e.Type, optBytes(e.Data)))
+		}
+		return out
+	}
+	cmdLits := cmdLitsOf(cmds)
+	evLits := evLitsOf(t.EventLog)
+	// --- oracle (b'): the command lists kept from the earlier boots of the session still say what they
+	// said when their boot ended (a caller that keeps CommandLog.Commands() to re-execute it later --
+	// the PCR brute-forcer does -- must find the digests that were extended, whatever the converter and
+	// data-source objects of that boot were used for since)
+	for _, k := range p.kept {
+		now := cmdLitsOf(k.cmds)
+		same := len(now) == len(k.lits)
+		first := -1
+		for i := 0; same && i < len(now); i++ {
+			if now[i] != k.lits[i] {
+				same, first = false, i
+			}
+		}
+		expect(same, fmt.Sprintf("the command list kept from boot %d of this TPM object (CommandLog.Commands() read when that boot ended) no longer carries the digests it carried then: command %d changed after the later boots, which used converter / data-source objects that boot had used", k.boot, first),
+			"pkg/bootflow/dataconverters/hasher.go:Convert / pkg/bootflow/types/data.go:ConvertedBytes / pkg/bootflow/subsystems/trustchains/tpm/command_extend.go (a recorded digest must be a value of its own)")
 	}
 	var measLits []string
 	measBytes := make([][]byte, len(s.MeasuredData))
@@ -2058,7 +2291,7 @@ func judge(r *runResult) {
 				}
 				n++
 			}
-			expect(okPairs && n == len(cs.cmds) && (n == 4 || n == 1),
+			expectDigest(okPairs && n == len(cs.cmds) && (n == 4 || n == 1),
 				fmt.Sprintf("the commands issued for a TPMEvent are not (extend, log-add) pairs carrying hash(alg, ConvertedBytes) of the data its references denote (%d commands)", len(cs.cmds)),
 				"pkg/bootflow/actions/tpmactions/tpm_event.go:Apply / pkg/bootflow/types/data.go:RawBytes")
 			if n == 1 {
@@ -2078,9 +2311,30 @@ func judge(r *runResult) {
 				expect(cs == nil && len(measuredBy[a]) == 0, "a TPMExtend whose data cannot be obtained issued TPM commands", "tpm_extend.go:Apply")
 				continue
 			}
-			expect(cs != nil && len(cs.cmds) == 1 && isExt(cs.cmds[0], it.p, it.alg, m.conv.b),
-				"the command issued for a TPMExtend does not carry ConvertedBytes of the data its references denote",
-				"pkg/bootflow/actions/tpmactions/tpm_extend.go:Apply / pkg/bootflow/types/data.go")
+			okExt := cs != nil && len(cs.cmds) == 1 && isExt(cs.cmds[0], it.p, it.alg, m.conv.b)
+			hint := ""
+			if !okExt && cs != nil && len(cs.cmds) == 1 {
+				// whose digest is it?  (another measurement's, made with the same converter object: the
+				// recorded slice shares memory with a later result)
+				if x, ok := cs.cmds[0].(*tpm.CommandExtend); ok {
+					for j, other := range items {
+						om := measOf[other]
+						if other == it || om == nil || !om.readable || (other.kind != "extend" && other.kind != "event") {
+							continue
+						}
+						if bytes.Equal(x.Digest, om.conv.b) {
+							hint = fmt.Sprintf(": the recorded digest %x is not that of this measurement's bytes (%x) but ConvertedBytes of the data of item %d of the flow", []byte(x.Digest), m.conv.b, j)
+							if other.src.data.obj != nil && other.src.data.obj == it.src.data.obj {
+								hint += fmt.Sprintf(", which holds the same converter object #%d", other.src.data.obj.id)
+							}
+							break
+						}
+					}
+				}
+			}
+			expectDigest(okExt,
+				"the command recorded for a TPMExtend does not carry (when the log is read after the flow) ConvertedBytes of the data its references denote"+hint,
+				"pkg/bootflow/actions/tpmactions/tpm_extend.go:Apply / pkg/bootflow/types/data.go:ConvertedBytes / pkg/bootflow/dataconverters/hasher.go:Convert")
 			if mi := measuredBy[a]; len(mi) == 1 {
 				expect(measRead[mi[0]] && bytes.Equal(measBytes[mi[0]], m.conv.b),
 					"MeasuredData.ConvertedBytes of a TPMExtend != converter(concatenation of the referenced bytes)", "data.go:ConvertedBytes")
@@ -2100,10 +2354,10 @@ func judge(r *runResult) {
 				}
 				d := ms[b].conv.b // = hash(alg, raw): the Hasher converter
 				ce, cl := byCause[ext], byCause[lg]
-				expect(ce != nil && len(ce.cmds) == 1 && isExt(ce.cmds[0], 0, algs[b], d),
+				expectDigest(ce != nil && len(ce.cmds) == 1 && isExt(ce.cmds[0], 0, algs[b], d),
 					"PCR0_DATA: the extended digest != hash(alg, concatenation in reference order of the six referenced fields)",
 					"pkg/bootflow/steps/intelsteps/measure_pcr0_data.go")
-				expect(cl != nil && len(cl.cmds) == 1 && isLog(cl.cmds[0], 0, algs[b], d, 7, []byte("PCR0_DATA "+map[int]string{0: "SHA1", 1: "SHA256"}[b])),
+				expectDigest(cl != nil && len(cl.cmds) == 1 && isLog(cl.cmds[0], 0, algs[b], d, 7, []byte("PCR0_DATA "+map[int]string{0: "SHA1", 1: "SHA256"}[b])),
 					"PCR0_DATA: the logged digest != hash(alg, concatenation of the six referenced fields) (extend and log-add must carry the same digest)",
 					"pkg/bootflow/steps/intelsteps/measure_pcr0_data.go:compileActions")
 			}
@@ -2135,6 +2389,28 @@ func judge(r *runResult) {
 		}
 	}
 
+	// --- oracle (d): looking does not change the records.  Since the logs were written down, only
+	// observers ran (ConvertedBytes of every MeasuredData entry, both replays, the re-executions):
+	// the command log and the event log must still say the same
+	{
+		nowC, nowE := cmdLitsOf(cmds), evLitsOf(t.EventLog)
+		same := len(nowC) == len(cmdLits) && len(nowE) == len(evLits)
+		what := ""
+		for i := 0; same && i < len(nowC); i++ {
+			if nowC[i] != cmdLits[i] {
+				same, what = false, fmt.Sprintf("command %d was %s and is now %s", i, cmdLits[i], nowC[i])
+			}
+		}
+		for i := 0; same && i < len(nowE); i++ {
+			if nowE[i] != evLits[i] {
+				same, what = false, fmt.Sprintf("event log entry %d was %s and is now %s", i, evLits[i], nowE[i])
+			}
+		}
+		expect(same, "the recorded command log / event log changed while it was only being observed (MeasuredData.ConvertedBytes, the replays, the re-executions of the command log): "+what,
+			"pkg/bootflow/dataconverters/hasher.go:Convert / pkg/bootflow/types/data.go:ConvertedBytes (a recorded digest must not share memory with a later result)")
+	}
+	p.kept = append(p.kept, keptCmds{boot: len(r.earlier), cmds: cmds, lits: cmdLits})
+
 	// --- the case
 	apOK := !apPan && apErr == nil
 	var stepLits []string
@@ -2145,8 +2421,12 @@ func judge(r *runResult) {
 		}
 		stepLits = append(stepLits, gal.List(is))
 	}
-	lit := fmt.Sprintf("(mkCase\n    %s\n    %d %s\n    %s\n    %s\n    %s\n    %s %s %d\n    %s\n    %s\n    %s\n    (%s, %s))",
-		gal.List(ht.items), startCode(r.reuse), gal.List(stepLits), pcrsLit(t.PCRValues), gal.List(cmdLits), gal.List(evLits),
+	var pool []string
+	for _, o := range p.convs {
+		pool = append(pool, fmt.Sprint(o.alg))
+	}
+	lit := fmt.Sprintf("(mkCase\n    %s\n    %d %s %s\n    %s\n    %s\n    %s\n    %s %s %d\n    %s\n    %s\n    %s\n    (%s, %s))",
+		gal.List(ht.items), startCode(r.reuse), gal.List(pool), gal.List(stepLits), pcrsLit(t.PCRValues), gal.List(cmdLits), gal.List(evLits),
 		gal.List(measLits), gal.List(flagLits), loc, gal.List(replayLits), gal.List(tpmReplayLits),
 		pcrsLit(re.PCRValues), gal.Bool(apOK), pcrsLit(ap.PCRValues))
 	kind := r.kind
@@ -2162,6 +2442,7 @@ func judge(r *runResult) {
 	if wf && started && len(t.EventLog) >= 6 {
 		ctx.Count("wf with >=3 logged measurements")
 	}
+	fails = append(digestFails, fails...)
 	for i := 0; i < checks-len(fails); i++ {
 		ctx.OracleOK()
 	}
@@ -2241,7 +2522,10 @@ func main() {
 		// from it costs the Coq model ~10 ms: most platforms carry the 4 KiB image
 		useFW := ctx.Rng.Intn(10) < 3
 		hasRegs := useFW && ctx.Rng.Intn(10) < 8
-		return newPlatform(useFW, hasRegs, ctx.Rng.Uint64())
+		p := newPlatform(useFW, hasRegs, ctx.Rng.Uint64())
+		// how often a new data object gets a converter object that other measurements hold already
+		p.share = pick(0, 25, 50, 50, 90)
+		return p
 	}
 	// a session: up to three boots on ONE *tpm.TPM object, recycled between the boots (every boot is a
 	// case of its own; the earlier boots of the object are part of its description)
@@ -2256,6 +2540,8 @@ func main() {
 			switch {
 			case ctx.Rng.Intn(5) == 0:
 				r = runGenerated("logged-gen", p, p.genLogged())
+			case ctx.Rng.Intn(5) == 0:
+				r = runGenerated("shared-objects", p, p.genShared())
 			case boot == 0 || ctx.Rng.Intn(4) > 0:
 				r = runGenerated("wf-gen", p, p.genWF())
 			default:
@@ -2273,9 +2559,12 @@ func main() {
 		p := mkPlat()
 		for boot := 0; i < nGen; boot++ {
 			var r *runResult
-			if boot == 0 || ctx.Rng.Intn(4) > 0 {
+			switch {
+			case boot > 0 && ctx.Rng.Intn(4) == 0:
+				r = runGenerated("shared-objects", p, p.genShared())
+			case boot == 0 || ctx.Rng.Intn(4) > 0:
 				r = runGenerated("general", p, p.genGeneral())
-			} else {
+			default:
 				r = runGenerated("wf-gen", p, p.genWF())
 			}
 			judge(r)
@@ -2319,5 +2608,5 @@ func main() {
 	}
 	probeUTF8()
 	probeNoAction()
-	ctx.Finish("per case: a boot flow built from the public constructors is run by bootengine on the real code, on a new TPM object or on the object of earlier boots recycled with Reset() / DoNotUse_ResetNoInit() (+ SupportedAlgos); the model (Model/BootSim.v over Model/TPM.v, Model/EventLog.v, Model/Refs.v) is run on the same items with the case's hash table; compared: TPM.PCRValues, CommandLog, EventLog, ConvertedBytes of every MeasuredData entry, which actions had issues, tpmeventlog.Replay for both PCRs and banks, tpm.EventLog.Replay for both banks, PCRValues after re-executing the command log (Apply by Apply and Commands.Apply)")
+	ctx.Finish("per case: a boot flow built from the public constructors is run by bootengine on the real code, on a new TPM object or on the object of earlier boots recycled with Reset() / DoNotUse_ResetNoInit() (+ SupportedAlgos); converter objects may be held by several measurements and boots; the model (Model/BootSimObjs.v: converter objects and digest arrays, over Model/BootSim.v, Model/TPM.v, Model/EventLog.v, Model/Refs.v) is run on the same items with the case's hash table and converter pool; compared: TPM.PCRValues, CommandLog, EventLog, the digests of both logs as read in the model's memory after the flow, ConvertedBytes of every MeasuredData entry, which actions had issues, tpmeventlog.Replay for both PCRs and banks, tpm.EventLog.Replay for both banks, PCRValues after re-executing the command log (Apply by Apply and Commands.Apply)")
 }
